@@ -19,7 +19,7 @@ var simpleConditions = []string{
 }
 
 func drawEpoch(rt *rapid.T) time.Time {
-	return time.Unix(rapid.Int64Range(1_000_000_000, 2_000_000_000).Draw(rt, "epoch-s"), rapid.Int64Range(0, 999_999_999).Draw(rt, "epoch-ns")).UTC()
+	return time.Unix(rapid.Int64Range(1_000_000_000, 4_400_000_000).Draw(rt, "epoch-s"), rapid.Int64Range(0, 999_999_999).Draw(rt, "epoch-ns")).UTC()
 }
 
 func drawConfig(rt *rapid.T) cbConfig {
